@@ -665,9 +665,15 @@ def exec_chunk_e2e(case):
         pio = PyramidIO(os.path.join(d, "chunks"), default_format="npy")
         order = case.get("order") or list(range(img.n_chunks))
         with toasty_call("sampling", "chunks sampled one after another"):
-            for i in order:
-                i = i % img.n_chunks
-                toast.sample_layer_filtered(pio, cs.filter(i), cs.sampler(i), depth, coordsys=coordsys, parallel=1)
+            if case.get("upfront"):
+                # every chunk's filter and sampler are obtained first, then used one after another
+                pairs = [(cs.filter(i % img.n_chunks), cs.sampler(i % img.n_chunks)) for i in order]
+                for flt_, smp_ in pairs:
+                    toast.sample_layer_filtered(pio, flt_, smp_, depth, coordsys=coordsys, parallel=1)
+            else:
+                for i in order:
+                    i = i % img.n_chunks
+                    toast.sample_layer_filtered(pio, cs.filter(i), cs.sampler(i), depth, coordsys=coordsys, parallel=1)
         got = read_layer(pio, depth, "npy")
     ny, nx = case["ny"], case["nx"]
     full = img._data
@@ -714,7 +720,7 @@ def exec_chunk_e2e(case):
                             f"chunked sampling ({ny}x{nx} map, xs={case['xs']} ys={case['ys']}, {mode}) at depth {depth}: tile {p} pixel (row {i}, col {j}) is {'undefined' if undefined[i, j] else g[i, j].tolist()}, whole-map sampling gives {np.asarray(exp[i, j]).tolist()} (map cell row {sorted(ay)}, col {sorted(ax)})",
                         )
                     nbad += 1
-    return Outcome(classes=["chunk-end-to-end", mode, f"depth{depth}", f"chunks{img.n_chunks}"], nontrivial=img.n_chunks >= 2, info={"boundary_pixels": nbad})
+    return Outcome(classes=["chunk-end-to-end", mode, f"depth{depth}", f"chunks{img.n_chunks}"] + (["samplers-obtained-upfront"] if case.get("upfront") else []), nontrivial=img.n_chunks >= 2, info={"boundary_pixels": nbad})
 
 
 @st.composite
@@ -723,6 +729,7 @@ def strat_chunk_e2e(draw, tier):
     case["depth"] = draw(st.sampled_from([0, 1, 1, 2]))
     n = (len(case["xs"]) - 1) * (len(case["ys"]) - 1)
     case["order"] = draw(st.permutations(list(range(n))))
+    case["upfront"] = draw(st.booleans())
     return case
 
 
